@@ -52,9 +52,16 @@ def facts(st):
     return out
 
 
-def try_activate(fn, env, text):
+def try_activate(fn, env, text, strict_first=False):
     orig = fn.__code__ if hasattr(fn, "__code__") else None
     outcome, prov = "ok", ""
+    if strict_first:
+        # history: the same selector is first checked strictly while the function is not instrumented (always refused)
+        from ptera.selector import select
+        try:
+            select(text, env=env, strict=True)
+        except Exception:
+            pass
     try:
         p = probing(text, env=env)
         with p:
@@ -97,7 +104,7 @@ def main():
                 sub = "own-name"
             if kind == "global" and hasattr(builtins, ident):
                 sub = "builtin"
-            outcome, prov, clean = try_activate(fn, env, f"{fname} > {ident}")
+            outcome, prov, clean = try_activate(fn, env, f"{fname} > {ident}", strict_first=(len(cases) % 3 == 0))
             cases.append({"id": len(cases), "fn": fname, "ident": ident, "kind": kind, "sub": sub, "outcome": outcome,
                           "prov": prov, "clean": clean})
     # objects that are not instrumentable Python functions, and unresolvable names
